@@ -47,7 +47,7 @@ func strAxiomText() string {
 	return `(assert (forall ((a Str) (b Str)) (! (= (slen (scat a b)) (+ (slen a) (slen b))) :pattern ((scat a b)))))
 (assert (forall ((a Str) (b Str) (k Int)) (! (=> (and (<= 0 k) (< k (+ (slen a) (slen b)))) (= (sat (scat a b) k) (ite (< k (slen a)) (sat a k) (sat b (- k (slen a)))))) :pattern ((sat (scat a b) k)))))
 (assert (forall ((s Str) (i Int) (j Int)) (! (= (slen (ssub s i j)) (ite (and (<= 0 i) (<= i j)) (- j i) 0)) :pattern ((ssub s i j)))))
-(assert (forall ((s Str) (i Int) (j Int) (k Int)) (! (=> (and (<= 0 k) (< k (- j i))) (= (sat (ssub s i j) k) (sat s (+ i k)))) :pattern ((sat (ssub s i j) k)))))
+(assert (forall ((s Str) (i Int) (j Int) (k Int)) (! (=> (and (<= 0 i) (<= 0 k) (< k (- j i))) (= (sat (ssub s i j) k) (sat s (+ i k)))) :pattern ((sat (ssub s i j) k)))))
 (assert (forall ((a (Array Int Int)) (o Int) (n Int)) (! (= (slen (sfromb a o n)) (ite (<= 0 n) n 0)) :pattern ((sfromb a o n)))))
 (assert (forall ((a (Array Int Int)) (o Int) (n Int) (k Int)) (! (=> (and (<= 0 k) (< k n)) (= (sat (sfromb a o n) k) (select a (+ o k)))) :pattern ((sat (sfromb a o n) k)))))
 (assert (forall ((s Str)) (! (>= (slen s) 0) :pattern ((slen s)))))
